@@ -13,7 +13,7 @@
     household satisfy the hypotheses is tied by the correspondence check: the executable instances of BOTH loop models (Model/HetPath.v,
     Model/StagePath.v) are compared with HetBlock / StageBlock.impulse_nonlinear. *)
 From Coq Require Import ZArith QArith Qcanon List Arith.
-From SSJ Require Import Model.HetLoop Model.HetPath Model.StageLoop Model.StagePath Proofs.HetLoopProofs Proofs.StageLoopProofs.
+From SSJ Require Import Model.HetLoop Model.HetPath Model.StageLoop Model.StagePath Proofs.HetLoopProofs Proofs.StageLoopProofs Proofs.StagePathProofs.
 Import ListNotations.
 Open Scope nat_scope.
 
@@ -37,6 +37,20 @@ Proof.
 Qed.
 Print Assumptions stage_equals_het.
 
+(** the fixture household: its executable stage instance (Model/StagePath.v) and its executable HetBlock-form instance (Model/HetPath.v) -- the two models
+    the correspondence check compares with StageBlock / HetBlock.impulse_nonlinear -- give the same reported policies and the same distributions at EVERY
+    date, for every horizon, input path, terminal record carrying the Markov matrix of its own inputs, and initial distribution: the hypotheses of
+    stage_equals_het hold for them by computation *)
+Theorem toy_stage_equals_toy_het : forall nz na agrid egrid Pi_ss kappa T inputs (ssin : toy_in) (ss : hback) Dbeg,
+  b_Pi ss = toy_Pi nz Pi_ss (i_shift ssin) ->
+  let recs := backward_nonlinear toy_in hback (bstepB toy_in (toy_step nz na agrid egrid Pi_ss kappa)) (expectB nz na) T inputs ss in
+  let sb := stage_backward toy_in arr trep tlom (toy_stages nz na agrid egrid Pi_ss kappa) T inputs (mk_expect nz na (toy_Pi nz Pi_ss (i_shift ssin)) (b_V ss)) in
+  map fst sb = map (fun b => [([], []); (b_a b, b_c b)]) recs /\
+  stage_forward tlom arr (tlom_apply nz na agrid) (map snd sb) Dbeg
+  = map (fun dd => [fst dd; snd dd]) (forward_nonlinear hback arr (exogB nz na) (endogB nz na agrid) recs Dbeg).
+Proof. intros. apply toy_stage_equals_toy_het_lemma. assumption. Qed.
+Print Assumptions toy_stage_equals_toy_het.
+
 (** non-vacuity 1: an integer instance satisfying every hypothesis (records = (input, value)), three dates *)
 Example stage_equals_het_instance :
   let bstep := fun (i : nat) (e : nat * nat) => (i, snd e + i) in
@@ -52,7 +66,7 @@ Proof. vm_compute. split; [reflexivity | discriminate]. Qed.
 
 (** non-vacuity 2: the two executable instances of the fixture household (two income states, three grid points, two dates, a shock to r and to the
     Markov shifter) give the same aggregates and the same distributions *)
-Example toy_stage_equals_toy_het :
+Example toy_stage_equals_toy_het_example :
   let agrid := [hq 0 1; hq 1 1; hq 2 1] in let egrid := [hq 1 2; hq 3 2] in let Pi := [[hq 3 4; hq 1 4]; [hq 1 4; hq 3 4]] in
   let ins := [{| i_r := hq 1 16; i_w := hq 1 1; i_shift := hq 1 16 |}; {| i_r := hq 0 1; i_w := hq 1 1; i_shift := hq 0 1 |}] in
   let ssV := [[hq 1 1; hq 2 1; hq 3 1]; [hq 2 1; hq 3 1; hq 4 1]] in
